@@ -6,6 +6,9 @@
       the demonstration (must fail), undo the patch, rebuild + run the demonstration (must pass)
   seed.py run <patch> <pid> [<pid> ...]
       apply the patch to /repo, run ./check <pid> --tier quick for every pid, undo the patch
+  seed.py siderun <worktree> <patch> <pid> [<pid> ...]
+      the same without touching /repo: apply the patch in the scratch worktree and run the checks against it
+      (VERIF_REPO=<worktree>, scratch build and evidence directories under /tmp), undo the patch
   seed.py keep <id> <property> <patch> <demo> <notes-file> -- <free text: what it needs to manifest>
       store /verif/seeded/<id>/{patch.diff,demo.cpp,meta.json}
 """
@@ -91,6 +94,29 @@ def run_checks(patch, pids, tier="quick"):
     return results
 
 
+def side_checks(wt, patch, pids, tier="quick"):
+    sh("git checkout -- .", cwd=wt)
+    rc, out = sh(f"git apply {patch}", cwd=wt)
+    if rc:
+        print("patch does not apply:", out); return None
+    # a private copy of /verif: generated Coq files and compiled theories depend on the source tree they were made from
+    copy = f"/tmp/vside/{os.path.basename(wt)}"
+    os.makedirs(copy, exist_ok=True)
+    sh(f"rsync -a --delete --exclude .git --exclude replays --exclude 'build/C*' {VERIF}/ {copy}/")
+    env = f"VERIF_REPO={wt} VERIF_EVIDENCE_DIR=/tmp/sideev-{os.path.basename(wt)} "
+    results = {}
+    try:
+        for pid in pids:
+            t0 = time.time()
+            rc, out = sh(env + f"./check {pid} --tier {tier}", cwd=copy)
+            lines = [l for l in out.splitlines() if l.startswith("VIOLATION") or l.startswith("[") or l.startswith("KNOWN")]
+            results[pid] = {"exit": rc, "lines": lines[-4:], "wall_s": round(time.time() - t0, 1)}
+            print(pid, "exit", rc, *lines[-3:], sep="\n   ")
+    finally:
+        sh("git checkout -- .", cwd=wt)
+    return results
+
+
 def main():
     a = sys.argv[1:]
     if a[0] == "confirm":
@@ -98,6 +124,9 @@ def main():
         json.dump(r, open("/tmp/seed_confirm.json", "w"), indent=1)
     elif a[0] == "run":
         r = run_checks(os.path.abspath(a[1]), a[2:])
+        json.dump(r, open("/tmp/seed_run.json", "w"), indent=1)
+    elif a[0] == "siderun":
+        r = side_checks(a[1], os.path.abspath(a[2]), a[3:])
         json.dump(r, open("/tmp/seed_run.json", "w"), indent=1)
     elif a[0] == "keep":
         sid, prop, patch, demo, notes = a[1:6]
